@@ -51,6 +51,8 @@ class LWorker(env.BaseWorker):
         self.events = 0
         self.yields = 0
         self.preempt_at = None
+        self.preempt_more = ()  # further pre-emptions of this thread (own event numbers), bound 2
+        self.cands = []  # probe: own events after the first pre-emption at which a pre-emption would not be void
         self.pred = None  # predicate this thread is blocked on while parked (None: parked by pre-emption / not started)
         self.where = None
         self.th = threading.Thread(target=self._run, daemon=True, name="hsverif-" + name)
@@ -75,6 +77,11 @@ class LWorker(env.BaseWorker):
             self.where = where
             self.s.preempted = (self.name, self.events, where)
             self.s.switch(self, None)
+        elif self.events in self.preempt_more:
+            self.s.preempted2 = (self.name, self.events, where)
+            self.s.switch(self, None)
+        elif self.s.probe and self.s.preempted is not None and self.s._eligible(self):
+            self.cands.append(self.events)
 
     # -- thread body ---------------------------------------------------------------------------
     def _run(self):
@@ -137,6 +144,8 @@ class LSched:
         self.main_sem = threading.Semaphore(0)
         self.deadlock = None
         self.preempted = None
+        self.preempted2 = None
+        self.probe = False
         self.switches = 0
 
     def _eligible(self, me):
@@ -191,8 +200,10 @@ class LSched:
         self.main_sem.release()
 
 
-def run_one(sc, root, first, n, gran="line"):
-    """One execution: thread `first` is pre-empted at its n-th event (n=None: never)."""
+def run_one(sc, root, first, n, gran="line", second=None, probe=False):
+    """One execution: thread `first` is pre-empted at its n-th event (n=None: never); `second` = (thread, m) asks for a
+    second pre-emption, of that thread at its own m-th event; `probe` records, for every thread, the events after the first
+    pre-emption at which a second one would not be void (another thread could run)."""
     if getattr(sc, "faults", None):
         raise HarnessError("engine L injects no faults; scenario %s asks for %r" % (sc.name, sc.faults))
     env.reset_execution()
@@ -209,6 +220,11 @@ def run_one(sc, root, first, n, gran="line"):
         w.blocked_op = None
         s.workers.append(w)
     s.workers[0].preempt_at = n
+    s.probe = probe
+    if second is not None:
+        for w in s.workers:
+            if w.name == second[0]:
+                w.preempt_more = (second[1],)
     for w in s.workers:
         w.th.start()
     ex = Execution()
@@ -233,13 +249,18 @@ def run_one(sc, root, first, n, gran="line"):
     ex.cut = False
     ex.events = {w.name: w.events for w in s.workers}
     ex.preempted = s.preempted
-    ex.choices = ["L", first, n, gran]
+    ex.preempted2 = s.preempted2
+    ex.cands = {w.name: list(w.cands) for w in s.workers}
+    ex.choices = ["L", first, n, gran] + ([list(second)] if second is not None else [])
     return ex
 
 
-def explore(sc, root, first, gran="line", chunk=(0, 1), time_cap=None):
+def explore(sc, root, first, gran="line", chunk=(0, 1), time_cap=None, bound=1):
     """All executions with one pre-emption of `first` (n in this chunk's share of 1..N) plus, in chunk 0, the
-    execution without pre-emption.  Returns the same summary shape as engine_t.explore."""
+    execution without pre-emption.  bound=2: for every such n, additionally every execution with a SECOND pre-emption - of the
+    other thread at each of its events, or of `first` again after it resumed - at every event where it is not void (the
+    candidates are recorded by the one-pre-emption run itself, which is the common prefix of all of them).
+    Returns the same summary shape as engine_t.explore."""
     t0 = time.time()
     solo = run_one(sc, root, first, None, gran)
     again = run_one(sc, root, first, None, gran)
@@ -258,8 +279,9 @@ def explore(sc, root, first, gran="line", chunk=(0, 1), time_cap=None):
     todo = [None] if k == 0 else []
     todo += [n for n in range(1, N + 1) if n % K == k]
     void = 0
+    second_points = 0
     for n in todo:
-        ex = solo if n is None else run_one(sc, root, first, n, gran)
+        ex = solo if n is None else run_one(sc, root, first, n, gran, probe=bound >= 2)
         nexec += 1
         events += sum(ex.events.values())
         if n is not None and ex.sched.switches == 0:
@@ -267,9 +289,26 @@ def explore(sc, root, first, gran="line", chunk=(0, 1), time_cap=None):
         term = sc.terminal(ex, root)
         if term not in terminals:
             terminals[term] = list(ex.choices)
+        if bound >= 2 and n is not None and ex.sched.switches:
+            for name in sorted(ex.cands):
+                for m in ex.cands[name]:
+                    if name == first and m <= n:
+                        continue
+                    ex2 = run_one(sc, root, first, n, gran, second=(name, m))
+                    if ex2.preempted2 is None or ex2.preempted2[:2] != (name, m):
+                        raise HarnessError("second pre-emption (%s, %d) of %s was not reached: the execution diverged from "
+                                           "the probing run" % (name, m, sc.name))
+                    nexec += 1
+                    second_points += 1
+                    events += sum(ex2.events.values())
+                    t2 = sc.terminal(ex2, root)
+                    if t2 not in terminals:
+                        terminals[t2] = list(ex2.choices)
+                    if time_cap and time.time() - t0 > time_cap:
+                        break
         if time_cap and time.time() - t0 > time_cap:
             capped = "time cap %ds (pre-emption points %d.. of %d unexplored in this share)" % (time_cap, n or 0, N)
             break
     return {"terminals": terminals, "executions": nexec, "states": 0, "transitions": events,
             "step_violations": [], "capped": capped, "wall": time.time() - t0,
-            "preemption_points": N, "void_preemptions": void, "passes": 1}
+            "preemption_points": N, "second_preemption_points": second_points, "void_preemptions": void, "passes": 1}
